@@ -146,7 +146,7 @@ def main():
         ],
         checks=[CLAIMED[p] for p in ids if p in CLAIMED],
         not_applicable=[dict(property_id=p, reason=NA_REASONS[p]) for p in ids if p not in CLAIMED],
-        notes='Technique family: contract-based deductive verification of the real code (Verus, Kani). Exit 2 of a check means undecided (tool limit / lost anchor), never an alarm. See DESIGN.md.',
+        notes='Technique family: contract-based deductive verification of the real code (Verus, Kani). Exit 2 of a check means undecided (tool limit / lost anchor), never an alarm. Every check also EXECUTES the real functions (linked crates, or items cut verbatim) on generated inputs through a replay runner: that part is sampled, labelled as such in the evidence, never counted in obligations/discharged, and is what turns a failed obligation into a concrete failing input. Genuine defects found and repaired (fix: commits in /repo) and the open findings are listed in known_findings.json and DESIGN.md 9.3. See DESIGN.md.',
     )
     with open(os.path.join(V, 'MANIFEST.json'), 'w') as f:
         json.dump(m, f, indent=1)
